@@ -141,6 +141,10 @@ Section BufWriter.
     end.
 End BufWriter.
 
+(* std::io::DEFAULT_BUF_SIZE = 8 * 1024: the capacity `BufWriter::new` asks for (the theorems hold for
+   every capacity, so nothing depends on Vec::with_capacity giving exactly this) *)
+Definition DEFAULT_BUF_SIZE : nat := N.to_nat 8192.
+
 (* the seeded defect this model exists for: the BufWriter is dropped instead of `into_inner()?`
      let file = File::create(path)?; self.save_internal(&mut BufWriter::new(&file))?; Ok(file)
    -- kept to show that the theorem separates the two (SinkBufProofs.dropped_bufwriter_breaks) *)
